@@ -259,7 +259,7 @@ def run(ctx):
         s0 = Slice(pin).run(t["args"][0])
         gu = [ct for bb, ct in pin.calls() if callee_key(ct["callee"]).endswith("get_unchecked_mut")]
         same = len(gu) == 1 and (Slice(pin).run(gu[0]["args"][1])["locals"] & s0["locals"]) != set() and \
-            any(k.endswith("index_of_slab_to_insert_into") for k, _, _ in s0["calls"])
+            any(k.endswith(("index_of_slab_to_insert_into", "VacancyTracker::next_vacancy", "allocate_slab_for_insert")) for k, _, _ in s0["calls"])
         s1 = Slice(pin, through_calls=False).run(t["args"][1])
         h_ok = any(k.endswith("Slab::insert_with_unchecked") for k, _, _ in s1["calls"])
         ok = same and h_ok
